@@ -26,7 +26,7 @@ func (e *Expr) String() string {
 		return "<nil>"
 	}
 	switch e.Op {
-	case "id", "int":
+	case "id", "int", "real":
 		return e.Name
 	case "str":
 		return strconv.Quote(e.Name)
@@ -102,6 +102,15 @@ func lex(src string) ([]tok, error) {
 			j := i + 1
 			for j < len(src) && (isIdentChar(src[j])) {
 				j++
+			}
+			if j+1 < len(src) && src[j] == '.' && src[j+1] >= '0' && src[j+1] <= '9' {
+				k := j + 1
+				for k < len(src) && src[k] >= '0' && src[k] <= '9' {
+					k++
+				}
+				toks = append(toks, tok{"real", src[i:k]})
+				i = k
+				continue
 			}
 			txt := src[i:j]
 			// hex / plain
@@ -513,6 +522,8 @@ func (p *parser) parsePrimary() (*Expr, error) {
 		return &Expr{Op: "id", Name: t.text}, nil
 	case "int":
 		return &Expr{Op: "int", Name: t.text}, nil
+	case "real":
+		return &Expr{Op: "real", Name: t.text}, nil
 	case "str":
 		return &Expr{Op: "str", Name: t.text}, nil
 	case "op":
